@@ -75,6 +75,7 @@ func createFile(info types.SegmentInfo, wf types.WritableFile, bufPool *sync.Poo
 	}
 	r.tail = w
 	if err := w.initEmpty(); err != nil {
+		wf.Close()
 		return nil, err
 	}
 	return w, nil
@@ -93,6 +94,8 @@ func recoverFile(info types.SegmentInfo, wf types.WritableFile, bufPool *sync.Po
 	r.tail = w
 
 	if err := w.recoverTail(); err != nil {
+		// The caller gets nothing it could Close.
+		wf.Close()
 		return nil, err
 	}
 
